@@ -131,6 +131,6 @@ def main():
     print("claimed", len(checks), "not applicable", len(na))
 
 NOT_YET = {}
-HOOK_COMMITS = ["57dbf80", "9859bf3", "678ed52", "1099a61", "bcb7a71", "82a4b9c"]
+HOOK_COMMITS = ["57dbf80", "9859bf3", "678ed52", "1099a61", "bcb7a71", "82a4b9c", "185528b"]
 if __name__ == "__main__":
     main()
